@@ -136,6 +136,8 @@ def norm_check(sx):
 def run(ctx, res):
     with build.Lock():
         exe = build.harness()
+    from . import e2e
+    e2e.capstone_obligations(res, 'C11_')      # from the grammar TEXT to the command functions of the script: Props/Capstone.v
     cases = grammars(ctx)
     texts = [c[3] for c in cases]
     dumps = impl.dump(exe, texts, ['parse', 'check', 'tables'], SHELLS)
